@@ -33,9 +33,42 @@ ASSUMPTIONS = ["true crossings are located by the harness on the closed-form tra
                "location bound: (2 x measured grid error + 8 h^4/384 rate^4 scale + 64 eps scale) x L_g / |dg/dt| + 64 eps max(1,|t|)"]
 
 
+from hypothesis import strategies as st
+
+
+@st.composite
+def _near_boundary(draw):
+    """y' = const with a fixed-step method and LONG steps (2 .. 100): time / state events whose crossing lies a few probe
+    widths (multiples of eps^0.75 x step) before or after a step boundary - incl. just before t0 and just beyond tf, where
+    no event exists. The step that does not contain the root must not report it, the one that does must report it once."""
+    method = draw(st.sampled_from(["RK4Solver", "EulerSolver", "MidpointSolver", "RK5Solver", "HeunsSolver"]))
+    h = draw(st.sampled_from([2.0, 8.0, 25.0, 100.0, 1.0]))
+    N = draw(st.integers(2, 4))
+    sgn = draw(st.sampled_from([1.0, 1.0, -1.0]))
+    t0 = draw(st.sampled_from([0.0, -50.0, 8.0]))
+    tf = t0 + sgn * N * h
+    unit = (4 * np.finfo(np.float64).eps) ** 0.75 * h      # the probe width of the direction test, in time units
+    evs = []
+    for _ in range(draw(st.integers(1, 3))):
+        k = draw(st.integers(0, N))
+        m = draw(st.sampled_from([0.5, 1.5, 2.5, 2.9, 6.0, 100.0, 1e4])) * draw(st.sampled_from([1.0, -1.0]))
+        tc = t0 + sgn * k * h + m * unit
+        kind = draw(st.sampled_from(["time", "time", "comp"]))
+        p = dict(h=kind, s=draw(st.sampled_from([1.0, 1.0, 1e3, 1e-3, -1.0])), direction=draw(st.sampled_from([0, 0, 1, -1])), terminal=False)
+        if kind == "comp":
+            p["i"] = 0
+            p["c"] = 0.25 + 1.0 * (tc - t0)      # y_0(t) = 0.25 + (t - t0)
+        else:
+            p["c"] = tc
+        evs.append(p)
+    return dict(part="near_boundary", method=method, dtype="float64", prob=dict(kind="const", y0=[0.25, -1.0], v=[1.0, 0.5]), t0=t0, tf=tf,
+                dt=h * draw(st.sampled_from([1.0, -1.0])), rtol=1e-6, atol=1e-6, dense=draw(st.booleans()), events=evs)
+
+
 def parts(tier):
     q = tier == "quick"
-    return [Part("events", strategy=evrun.event_case("events", terminal_mode="none"), examples=700 if q else 15000, timeout=300)]
+    return [Part("events", strategy=evrun.event_case("events", terminal_mode="none"), examples=700 if q else 15000, timeout=300),
+            Part("near_boundary", strategy=_near_boundary(), examples=400 if q else 8000, timeout=300)]
 
 
 def check(case):
